@@ -31,8 +31,39 @@ def main():
             run(["git", "-C", "/repo", "worktree", "add", "-q", "--detach", tree, "HEAD"])
             merged = run(["git", "-C", tree, "apply", "--3way", patch])
             conflicts = run(["git", "-C", tree, "diff", "--name-only", "--diff-filter=U"]).stdout.strip()
-            if merged.returncode != 0 or conflicts:
-                print("%s: CONFLICT, left alone: %s" % (entry, (merged.stdout or conflicts)[-200:]))
+            if conflicts:
+                # both sides added lines at the same place (typically an import): keep both, in the order ours, theirs;
+                # the caller re-verifies the result with the demonstration (tools/seedimport.py <dir> ...)
+                resolved = True
+                for name in conflicts.splitlines():
+                    stages = {}
+                    for stage in (1, 2, 3):
+                        shown = run(["git", "-C", tree, "show", ":%d:%s" % (stage, name)])
+                        if shown.returncode != 0:
+                            resolved = False
+                            break
+                        stages[stage] = os.path.join(scratch, "stage%d" % stage)
+                        with open(stages[stage], "w", encoding="utf-8") as f:
+                            f.write(shown.stdout)
+                    if not resolved:
+                        break
+                    union = run(["git", "merge-file", "--union", "-p", stages[2], stages[1], stages[3]])
+                    if union.returncode < 0 or "<<<<<<<" in union.stdout:
+                        resolved = False
+                        break
+                    with open(os.path.join(tree, name), "w", encoding="utf-8") as f:
+                        f.write(union.stdout)
+                    try:
+                        compile(union.stdout, name, "exec")
+                    except SyntaxError:
+                        resolved = False
+                        break
+                if not resolved:
+                    print("%s: CONFLICT, left alone: %s" % (entry, conflicts[-200:]))
+                    continue
+                print("%s: conflict resolved by keeping both sides - RE-VERIFY" % entry)
+            elif merged.returncode != 0:
+                print("%s: does not merge, left alone: %s" % (entry, merged.stdout[-200:]))
                 continue
             diff = run(["git", "-C", tree, "diff", "HEAD"]).stdout
             if not diff.strip():
